@@ -134,6 +134,8 @@ def run(ctx):
     WRAPPER_ADTS.clear()
     WRAPPER_ADTS.update(a for a in ((imp.get("self_head") or {}).get("adt") for imp, _, _ in wi) if a)
     ctx.floor("R15.1", "wrapper impls discovered", len(wi), 35)
+    from rules.c19 import converting_writer_types
+    conv_tys = converting_writer_types(F)
     nmeth = 0
     for imp, tn, kind in wi:
         adt = (imp.get("self_head") or {}).get("adt", "")
@@ -146,7 +148,7 @@ def run(ctx):
             m = it["name"]
             if (tn, m) in EXEMPT or (tn[3:], m) in EXEMPT:
                 continue
-            if "unit::WithUnit" in imp["self_ty"]:
+            if imp["self_ty"] in conv_tys:
                 ctx.note("R15: %s::%s of the unit-converting wrapper is checked by C19 (R19.4)" % (tn, m))
                 continue
             nmeth += 1
